@@ -17,7 +17,7 @@ import (
 
 // C02: every coalesced request completes: no lost wake-up, no stuck key.
 
-var c02Outcomes = []string{"cacheable", "nocache", "5xx", "abort", "nilresp", "hang", "panic_hook", "truncate", "client_abort", "corrupt_gzip"}
+var c02Outcomes = []string{"cacheable", "nocache", "5xx", "abort", "nilresp", "hang", "panic_hook", "truncate", "client_abort", "corrupt_gzip", "stall"}
 
 type c02Epoch struct {
 	Outcome string `json:"outcome"`
@@ -226,7 +226,11 @@ func c02History(r *hx.Run, w *W, rnd *rand.Rand, hi int, epochs []c02Epoch) {
 			}
 		}
 		if ep.Variant == "held_registered_purge" {
-			cache.RemoveHTTPCache("c02", []byte(key))
+			if !purgeDirect(r, "c02", key, map[string]string{"outcome": ep.Outcome, "variant": ep.Variant}) {
+				close(g)
+				cancelF()
+				return
+			}
 			r.Add("purges_racing_completion", 1)
 		}
 		if ep.Outcome == "client_abort" {
@@ -391,7 +395,7 @@ func cancelClient(c *hx.Client) {
 func c02(r *hx.Run) {
 	r.MaxViol = 3 // violations here usually cost a watchdog period each
 	r.Level = "fault_enumeration"
-	r.Rule = "quick: every fetch outcome {cacheable, uncacheable, 5xx, upstream protocol error, cacheable headers with an undecodable body (no response object), hang > ProxyTimeout (504), panic at the proxy hook, truncated upstream body (net/http abort panic), fetcher's client drops its connection, cacheable response announced as gzip whose bytes are no gzip stream} x every waiter position {parked, one waiter registered but not yet receiving, the same + purge of the key, arriving after completion} x repeats (every second repeat the fetcher's own request carries Range / If-Range / If-None-Match / If-Modified-Since); thorough adds random outcome sequences of length 2-6 on one key. Verdict at quiescence on hooked entry state (status, registered waiters), on every request having returned, and on a follow-up request. Non-trivial = history in which >=1 waiter was parked; distinct = (outcome,variant,waiters) sequence."
+	r.Rule = "quick: every fetch outcome {cacheable, uncacheable, 5xx, upstream protocol error, cacheable headers with an undecodable body (no response object), hang > ProxyTimeout (504), panic at the proxy hook, truncated upstream body (net/http abort panic), fetcher's client drops its connection, cacheable response announced as gzip whose bytes are no gzip stream, upstream that sends the header and half of the body and then nothing more (the proxy timeout still bounds the fetch)} x every waiter position {parked, one waiter registered but not yet receiving, the same + purge of the key, arriving after completion} x repeats (every second repeat the fetcher's own request carries Range / If-Range / If-None-Match / If-Modified-Since); thorough adds random outcome sequences of length 2-6 on one key. Verdict at quiescence on hooked entry state (status, registered waiters), on every request having returned, and on a follow-up request. Non-trivial = history in which >=1 waiter was parked; distinct = (outcome,variant,waiters) sequence."
 	r.Assume = []string{"virtual clock, hook points (tag-guarded)", "ProxyTimeout 200ms so that a hanging upstream ends the fetch", "-race build"}
 	rnd := rand.New(rand.NewSource(r.Seed))
 	w := newSimpleWorld(r, hx.SimpleCfg{CacheName: "c02", CacheSize: 16, HitForPass: "2s", Timeout: "200ms"}, 1, true)
